@@ -205,6 +205,15 @@ func Instrument(opts Options) (*Result, error) {
 	if ents, _ := filepath.Glob(filepath.Join(cspDir, "*.go")); len(ents) <= 1 {
 		res.Overlay[filepath.Join(cspDir, "zz_verif_header_stub.go")] = cspStub
 	}
+	// The dashboard embeds the frontend build, which this checkout lacks (go:embed fails to compile
+	// without it, and with it package main). When it is missing, the file is replaced by a stub with
+	// the same exported API and a one-page in-memory "build".
+	dashDir := filepath.Join(opts.RepoDir, "webserver/dashboard")
+	if ents, _ := filepath.Glob(filepath.Join(dashDir, "frontend/build/*")); len(ents) == 0 {
+		dashStub := filepath.Join(opts.OutDir, "stub_dashboard.go")
+		os.WriteFile(dashStub, []byte(dashboardStub), 0o644)
+		res.Overlay[filepath.Join(dashDir, "dashboard.go")] = dashStub
+	}
 	shimPkgs, _ := os.ReadDir(opts.ShimDir)
 	for _, sp := range shimPkgs {
 		if !sp.IsDir() {
@@ -743,3 +752,32 @@ func atomicsField(info *types.Info, recv *ast.Field) string {
 	}
 	return f.Name()
 }
+
+const dashboardStub = `package dashboard
+
+// Stub for a checkout without the frontend build (see instr.go). Same exported API as dashboard.go.
+
+import (
+	"errors"
+	"net/http"
+	"reservoir/config"
+)
+
+var ErrFrontendNotFound = errors.New("frontend files not found")
+
+type Dashboard struct {
+	cfg *config.Config
+}
+
+func New(cfg *config.Config) *Dashboard { return &Dashboard{cfg: cfg} }
+
+func (d *Dashboard) ServeDashboard(w http.ResponseWriter, r *http.Request) {
+	w.Header().Set("Content-Type", "text/html; charset=utf-8")
+	w.Write([]byte("<!doctype html><title>reservoir</title>"))
+}
+
+func (d *Dashboard) RegisterHandlers(mux *http.ServeMux) error {
+	mux.HandleFunc("/", d.ServeDashboard)
+	return nil
+}
+`
